@@ -101,7 +101,8 @@ func injectNulls(n *Node, r *rand.Rand) int {
 }
 
 var c15Texts = []string{"note", "x := f(1)", "} ) ]", "a \"quoted\" word", "ends with slashes //", "not a */ ... no: star slash is excluded", "unicode é 日本",
-	"two\nlines", "ends with newline\n", "two\n\nparagraphs", "if x {", "return", "TODO(me): fix", "100% sure", "-- dashes --", "`backquote`"}
+	"two\nlines", "ends with newline\n", "two\n\nparagraphs", "if x {", "return", "TODO(me): fix", "100% sure", "-- dashes --", "`backquote`",
+	"go:generate stringer -type=T", "go:noinline", "nolint:errcheck", "line x.go:1"}
 
 func c15Text(r *rand.Rand, n int) string {
 	t := c15Texts[r.Intn(len(c15Texts))]
